@@ -44,7 +44,41 @@ def one_process(exe, d, param, upto, restart_from=None, tag=""):
     if res["rc"] == 0 and os.path.exists(f) and seeds:
         dg, size = dump_digest(f, seeds[-1]["off"], seeds[-1]["len"])
         dump = (seeds[-1]["step"], dg)
+    # field layout: runs (kind, size, count) written into the last dump of this process / read at its start
+    wruns, cur = [], []
+    rruns = []
+    for x in res["trace"]:
+        if x["e"] == "dump.begin":
+            cur = []
+        elif x["e"] == "w.run":
+            cur.append([x["k"], x["s"], x["n"]])
+        elif x["e"] == "dump.end":
+            wruns = cur
+        elif x["e"] == "r.run":
+            rruns.append([x["k"], x["s"], x["n"]])
+    LAYOUT[(d, tag)] = (merge_runs(wruns), merge_runs(rruns))
     return res["rc"], steps, dump, res["cmd"]
+
+
+LAYOUT = {}
+
+
+def merge_runs(runs):
+    out = []
+    for k, s, n in runs:
+        k = "n" if k in ("i", "u") else k       # signed / unsigned integers of one size: one class (see Trace_RestartRun)
+        if out and out[-1][0] == k and out[-1][1] == s:
+            out[-1][2] += n
+        else:
+            out.append([k, s, n])
+    return out
+
+
+def layout_rec(d, wtag, rtag):
+    """Record comparing what process rtag read with what process wtag wrote into the dump it started from."""
+    w = LAYOUT.get((d, wtag), ([], []))[0]
+    r = LAYOUT.get((d, rtag), ([], []))[1]
+    return {"e": "layout", "w": w, "r": r}
 
 
 def histories(exe, rd, name, pkw, N, chains):
@@ -89,6 +123,7 @@ def histories(exe, rd, name, pkw, N, chains):
         if rc2 != 0:
             recs.append({"e": "fail", "what": "rc=%d %s" % (rc2, cmd2)})
         else:
+            recs.append(layout_rec(d, "a", "b"))
             # includes the state right after reading the dump (logged as step k)
             for kk, dg in steps2:
                 recs.append({"e": "step", "k": kk, "d": dg})
@@ -106,6 +141,8 @@ def histories(exe, rd, name, pkw, N, chains):
             if rc != 0:
                 recs.append({"e": "fail", "what": "rc=%d %s" % (rc, cmd)})
                 break
+            if j > 0:
+                recs.append(layout_rec(d, "c%d" % (j - 1), "c%d" % j))
             for kk, dg in steps:
                 recs.append({"e": "step", "k": kk, "d": dg})
             if dump:
